@@ -301,13 +301,20 @@ func (w *World) exec(i int, op Op) (ev Event) {
 		ev.Read = op.H
 		var u *url.Url
 		var err error
+		ref := string(op.A)
+		if op.V == "peerhref" {
+			if ph := w.U[op.S]; ph != nil {
+				ref = ph.U.Href(false) + ref
+			}
+		}
+		ev.Val = ref
 		switch {
 		case op.W == 1:
-			u, err = w.parseRef(b.U.Href(false), string(op.A))
+			u, err = w.parseRef(b.U.Href(false), ref)
 		case op.W == 2 && w.P != nil:
-			u, err = w.P.BasicParser(string(op.A), b.U, nil, url.NoState)
+			u, err = w.P.BasicParser(ref, b.U, nil, url.NoState)
 		default:
-			u, err = b.U.Parse(string(op.A))
+			u, err = b.U.Parse(ref)
 		}
 		if op.K == "resolve" {
 			from := op.H
